@@ -92,6 +92,22 @@ def conv (j : Json) : Except String Json := do
   let (q', ok) := Q.to types q b2
   let mto := Json.mkObj [("ok", Json.bool ok), ("val", jmag q'.val), ("tag", jnat q'.bu.tag),
                          ("units", jarr jstr q'.bu.units)]
+  -- Quantity-valued target `Quantity(tm, v)` (optional field "tm"); its constructor may fold
+  -- dimensionless compounds into the magnitude
+  let tmj := j.getObjVal? "tm"
+  let tq : Option (Q Float) := match tmj with
+    | .ok t => match getFloat t with
+      | .ok tm => some (Q.init 1 (.scalar tm) iv)
+      | .error _ => none
+    | .error _ => none
+  let mtoq := match tq with
+    | some t => match t.val with
+      | .scalar tm' =>
+        let (q2, ok2) := Q.toQuantity types q tm' t.bu
+        Json.mkObj [("ok", Json.bool ok2), ("val", jmag q2.val), ("tag", jnat q2.bu.tag),
+                    ("units", jarr jstr q2.bu.units)]
+      | _ => Json.null
+    | none => Json.null
   -- specification side
   let (f1, d1) := factorOf iu
   let (f2, d2) := factorOf iv
@@ -102,7 +118,7 @@ def conv (j : Json) : Except String Json := do
     | _ => none
   let kind := specKind d1 d2 live1.isEmpty single2
   let sval := magMapOpt (specValue kind f1 f2) x
-  pure (Json.mkObj [("value", mval), ("to", mto),
+  pure (Json.mkObj [("value", mval), ("to", mto), ("toq", mtoq),
     ("init", Json.mkObj [("val", jmag q.val), ("units", jarr jstr q.bu.units), ("mag", jfloat q.bu.magnitude)]),
     ("spec", Json.mkObj [("kind", jstr (kindStr kind)), ("val", jopt jmag sval),
                          ("f1", jfloat f1), ("f2", jfloat f2)])])
